@@ -206,4 +206,20 @@ CHECKS["C16"] = dict(
           run("hist_c16_a0", "hist.cpp", "asan", args=["--mode", "c16", "--slots", "2", "--bufs", "1", "--dims", "2.3", "--align", "0", "--deadline", "3000"], tiers=("thorough",), timeout={"thorough": 5000}),
           run("hist_c16_3slots", "hist.cpp", "asan", args=["--mode", "c16", "--slots", "3", "--bufs", "2", "--dims", "2.3", "--align", "1", "--deadline", "3000"], tiers=("thorough",), timeout={"thorough": 5000})],
 )
+
+C09_PARTS = 10
+def c09_srcs():
+    return [("c09.cpp", ["-DC09_PART=%d" % k, "-DC09_NPARTS=%d" % C09_PARTS]) for k in range(C09_PARTS)]
+CHECKS["C09"] = dict(
+    level=MC, engine="enumerator",
+    technique="exhaustive enumeration of one-statement programs over the product of compile-time shapes and run-time storage / alias configurations, differential oracle against naive evaluation",
+    rule="statement kind {=, +=, -=, construction} x 20 operation overloads {a+b LL/RL/LR/RR, a-b LL/RL, -a L/R, a*s L/R, s*a L/R, iCommutator, ACommutator, Evolve(h,t), Evolve(buffer), ElementwiseOperation(f,.,.) LL/RL/LR/RR "
+         "with non-commutative f} x guarantee sets (quick {none, all, each single}; thorough all 8) instantiated from templates; run time: target in {empty, own same dim, own other dim, external same dim, external other dim} x "
+         "alias pattern in {none, v is a, v is b, v and a on one user buffer, v and b on one buffer, a is b, all one object} x d in {2,3,6} (thorough 2..6) x external-buffer alignment {ideal, not} x 2 operand value sets, stale "
+         "target contents; a guarantee flag is asserted only where the harness computes it to be true. Oracle: the same operation evaluated on fresh copies into a fresh temporary (lvalues, no guarantees), then =/+=/-= "
+         "component-wise (2 ulp); operands unchanged unless consumed or aliased; exception exactly for a size-changing assignment to external storage or a size-mismatched += / -=, std::runtime_error, target untouched. "
+         "a state = one statement shape with its configuration; a transition = its execution",
+    assumptions=["nested expressions reduce to single-operation forms through temporaries", "the meaning of each operation is decided by C01-C03; here only fusion"],
+    runs=[run("c09", c09_srcs(), "prod", shards=8), run("c09_asan", c09_srcs(), "asan", shards=8, args=["--reduced"])],
+)
 NOT_APPLICABLE = {}
